@@ -640,6 +640,8 @@ class Rewriter:
             b = self.sub('R36:wrapping-sub', r'\bisize::wrapping_sub\((\w+) as _, (\w+) as _\)', r'isize_wrapping_sub(p_addr(\1) as isize, p_addr(\2) as isize)', b)
             b = self.sub('R36:max_value', r'\bisize::max_value\(\)', 'isize::MAX', b)
             b = self.sub('R36:exact-len', r'\bself\.len\(\)', 'self.len(hs)', b)
+            b = self.sub('R36:thread-heap', r'\bself\.next\(\)', 'self.next(hs)', b)
+            b = self.sub('R36:min', r'\b(?:core::)?cmp::min\(', 'usize_min(', b)
             b = self.sub('R36:thread-heap', r'(?<![\w.])offset_from\(', 'offset_from(hs, ', b)
             b = self.sub('R36:raw-parts', r'(?<![\w.:])slice::from_raw_parts(?:_mut)?\(', 'slice_from_raw_parts(hs, ', b)
         # casts between pointer types are the identity on (buffer, index) pairs
@@ -846,7 +848,12 @@ class Rewriter:
         b = self.sub('R25:str-from-utf8', r'(?<![\w:])str::from_utf8_unchecked\(&self\.vec\)', 'str_from_utf8_unchecked(hs, &self.vec)', b)
         b = self.sub('R25:str-from-utf8', r'(?<![\w:])str::from_utf8\(&vec\)', 'str_from_utf8(hs, &vec)', b)
         b = self.sub('R25:as-str', r'\bself\.as_str\(\)', 'self.deref(hs)', b)
-        b = self.sub('R25:transmute-lifetime', r'\bmem::transmute\(s\)', 's', b)
+        b = self.map_calls(b, r"\bmem::transmute(?:::<&str, &'bump str>)?", lambda m_, a: a[0] if len(a) == 1 else None, 'R25:transmute-lifetime')
+        b = self.sub('R12:thread-heap', r'\bself\.vec\.clone\(\)', 'self.vec.clone(hs)', b)
+        b = self.sub('R12:thread-heap', r'\.split_at\(', '.split_at(hs, ', b)
+        b = self.sub('R12:thread-heap', r'\bself\.vec\.copy_from_slice\(', 'self.vec.copy_from_slice(hs, ', b)
+        b = self.sub('R25:source-len', r'\bsource\.len\(\)', 'source.vec.len()', b)
+        b = self.sub('R12:thread-heap', r'\bself\.vec\.clone_from\(', 'self.vec.clone_from(hs, ds, ', b)
         b = self.sub('R25:forget', r'\bmem::forget\(self\)', 'vec_forget(self.vec)', b)
         b = self.sub('R25:ok-pattern', r'\bOk\(\.\.\) =>', 'Ok(_) =>', b)
         for name in ['push_str', 'push']:
@@ -899,6 +906,11 @@ class Rewriter:
         b = self.sub('R27:forward', r'\(\*\*self\)\.finish\(\)', 'inner_finish(self, st)', b)
         b = self.sub('R27:forward', r'\(\*\*self\)\.len\(\)', 'inner_len(self)', b)
         b = self.sub('R27:forward', r'\(\*\*self\)\.(write_\w+)\(([^()]*)\)', r'inner_\1(self, \2, st)', b)
+        b = self.sub('R27:size_of', r'\b(?:core::)?mem::size_of::<T>\(\)', 'SIZE_OF_T()', b)
+        b = self.sub('R27:dangling', r'\b(?:core::)?ptr::NonNull::<T>::dangling\(\)\.as_ptr\(\)', 'dangling_ptr()', b)
+        b = self.sub('R27:write-macro', r'\bwrite!\((\w+), "\{\}", &\*\*self\)', r'{ let mut f2__ = fresh_formatter(\1); inner_fmt_display(self, &mut f2__, st) }', b)
+        b = self.sub('R27:write-macro', r'\bwrite!\((\w+), "\{:\?\}", &\*\*self\)', r'{ let mut f2__ = fresh_formatter(\1); inner_fmt_debug(self, &mut f2__, st) }', b)
+        b = self.map_calls(b, r'\bself\.shrink_to_fit', lambda m_, a: 'self.shrink_to_fit(st)', 'R27:thread-store')
         b = self.sub('R27:forward', r'\(\*\*self\)\.(next|next_back)\(\)', r'inner_\1(self, st)', b)
         b = self.sub('R27:forward', r'\(\*\*self\)\.(nth|nth_back)\(([^()]*)\)', r'inner_\1(self, \2, st)', b)
         b = self.sub('R27:forward', r'\(\*\*self\)\.size_hint\(\)', 'inner_size_hint(self, st)', b)
